@@ -213,36 +213,53 @@ def r09_3(ctx):
 
 
 def jordans_coverage(ctx, out):
-    """`jordans` of the three concrete shape classes covers every boundary curve"""
+    """`jordans` of the three concrete shape classes covers every boundary curve (abstract run of the getters on
+    stand-in shapes; any loop / comprehension idiom is accepted)"""
+    from verifkit.absrun import Obj, Runner
+    from verifkit.finite import Raised, Undecided
+    from verifkit.model import FIELD_TYPES
+
+    def run(fn, S):
+        try:
+            return list(Runner(ctx, set(), None).call_fn(fn, [S])), None
+        except (Undecided, Raised, TypeError) as ex:
+            return None, str(ex)
     fn = ctx.fn("shape.SimpleShape.jordans")
-    rets = [n for n in ast.walk(fn.node) if isinstance(n, ast.Return)]
-    ok = len(rets) == 1 and isinstance(rets[0].value, ast.Tuple) and len(rets[0].value.elts) == 1 \
-        and isinstance(rets[0].value.elts[0], ast.Attribute) and pat.is_name(rets[0].value.elts[0].value, fn.params[0])
-    (out.ok if ok else out.bad)(fn.qname, "jordans = (own curve,)" if ok else "jordans is not the 1-tuple of the own curve",
-                                where=fn.where())
-    for cls in ("ConnectedShape", "DisjointShape"):
+    JC = Obj("own_curve")
+    fields = {}
+    for (c, f), t in FIELD_TYPES.items():
+        if c == "SimpleShape" and "JordanCurve" in ctx.typer.classes_of(t):
+            fields[f[len("_SimpleShape"):] if f.startswith("_SimpleShape__") else f] = JC
+    got, err = run(fn, Obj("S", **fields))
+    if err:
+        out.undecided(fn.qname, err, where=fn.where())
+    else:
+        ok = len(got) == 1 and got[0] is JC
+        (out.ok if ok else out.bad)(fn.qname, "jordans = (own curve,)" if ok else "jordans is not the 1-tuple of the own curve",
+                                    where=fn.where())
+    for cls, parts in (("ConnectedShape", (1, 1, 1)), ("DisjointShape", (2, 1, 3))):
         fn = ctx.fn(f"shape.{cls}.jordans")
-        inf = ctx.typer.of(fn)
-        selfn = fn.params[0]
-        lps = [lp for lp in pat.loops(fn) if isinstance(lp.iter, ast.Attribute) and pat.is_name(lp.iter.value, selfn)
-               and any(g.endswith(".subshapes") for g in pat.getter_of(inf, lp.iter))]
-        if len(lps) != 1 or pat.has_early_exit(lps[0]):
-            out.bad(fn.qname, "jordans does not visit every element of self.subshapes", where=fn.where())
+        subs, want = [], []
+        for k, n in enumerate(parts):
+            js = tuple(Obj(f"j{k}{m}") for m in range(n))
+            want += list(js)
+            subs.append(Obj(f"sub{k}", jordans=js))
+        got, err = run(fn, Obj("S", subshapes=tuple(subs)))
+        if err:
+            out.undecided(fn.qname, err, where=fn.where())
             continue
-        lp = lps[0]
-        uses = [x for b in lp.body for x in ast.walk(b) if isinstance(x, ast.Attribute) and x.attr == "jordans"
-                and pat.is_name(x.value, lp.var)]
-        if not uses:
-            out.bad(fn.qname, "jordans does not collect subshape.jordans", where=fn.where())
-            continue
-        # Connected: subshapes are SimpleShapes (one curve each): jordans[0]; Disjoint: all curves of each subshape
-        par = pat.parents_of(fn.node)
-        p = par.get(id(uses[0]))
-        if cls == "DisjointShape" and isinstance(p, ast.Subscript) and not isinstance(p.slice, ast.Slice):
+        ids, wids = sorted(id(x) for x in got), sorted(id(x) for x in want)
+        firsts = sorted(id(s.jordans[0]) for s in subs)
+        if ids == wids:
+            out.ok(fn.qname, "jordans covers the curves of every subshape", where=fn.where())
+        elif ids == firsts and ids != wids:
             out.bad(fn.qname, "only one curve per subshape is collected although a subshape may have several",
-                    where=fn.where())
-            continue
-        out.ok(fn.qname, "jordans covers the curves of every subshape", where=fn.where())
+                    where=fn.where(), detail=f"got {got}")
+        elif not set(ids) & set(wids):
+            out.bad(fn.qname, "jordans does not collect subshape.jordans", where=fn.where(), detail=f"got {got}")
+        else:
+            out.bad(fn.qname, "jordans does not visit every element of self.subshapes", where=fn.where(),
+                    detail=f"got {got}, subshape curves {want}")
     single_curve_projection(ctx, out)
 
 
@@ -252,21 +269,53 @@ SINGLE_CURVE_OK = {
 }
 
 
+def _is_simple_test(t, name):
+    return isinstance(t, ast.Call) and isinstance(t.func, ast.Name) and t.func.id == "isinstance" and len(t.args) == 2 \
+        and pat.is_name(t.args[0], name) and isinstance(t.args[1], ast.Name) and t.args[1].id == "SimpleShape"
+
+
+def _implies_simple(test, name, positive=True):
+    """the test being true (positive) / false (not positive) implies isinstance(name, SimpleShape)"""
+    t, neg = pat._strip_not(test)
+    if neg:
+        return _implies_simple(t, name, not positive)
+    if positive:
+        if _is_simple_test(t, name):
+            return True
+        return isinstance(t, ast.BoolOp) and isinstance(t.op, ast.And) and any(_implies_simple(v, name, True) for v in t.values)
+    return isinstance(t, ast.BoolOp) and isinstance(t.op, ast.Or) and any(_implies_simple(v, name, False) for v in t.values)
+
+
 def _narrowed_to_simple(fn, name, node):
-    """an earlier `if not isinstance(name, SimpleShape): return/raise` dominates the use"""
+    """the use is dominated by a test that `name` is a SimpleShape: an early exit `if not isinstance(..): return`,
+    an enclosing `if` / conditional expression / comprehension filter, or an earlier operand of `and` / `or`"""
+    par = pat.parents_of(fn.node)
+    child, p = node, par.get(id(node))
+    while p is not None and p is not fn.node:
+        if isinstance(p, ast.BoolOp) and child in p.values:
+            before = p.values[:p.values.index(child)]
+            if any(_implies_simple(v, name, isinstance(p.op, ast.And)) for v in before):
+                return True
+        if isinstance(p, (ast.If, ast.While, ast.IfExp)):
+            body = p.body if isinstance(p.body, list) else [p.body]
+            orelse = p.orelse if isinstance(p.orelse, list) else [p.orelse]
+            if any(child is b for b in body) and _implies_simple(p.test, name, True):
+                return True
+            if any(child is b for b in orelse) and _implies_simple(p.test, name, False):
+                return True
+        if isinstance(p, (ast.ListComp, ast.GeneratorExp, ast.SetComp, ast.DictComp)):
+            for g in p.generators:
+                if any(_implies_simple(c, name, True) for c in g.ifs):
+                    return True
+        child, p = p, par.get(id(p))
     for st in fn.node.body:
         if getattr(st, "lineno", 0) >= node.lineno:
             break
         if isinstance(st, ast.If) and st.body and isinstance(st.body[-1], (ast.Return, ast.Raise)) and not st.orelse:
-            t, neg = pat._strip_not(st.test)
-            if neg and isinstance(t, ast.Call) and isinstance(t.func, ast.Name) and t.func.id == "isinstance" \
-                    and pat.is_name(t.args[0], name) and isinstance(t.args[1], ast.Name) and t.args[1].id == "SimpleShape":
+            if _implies_simple(st.test, name, False):
                 return True
-        if isinstance(st, ast.Assert):
-            t = st.test
-            if isinstance(t, ast.Call) and isinstance(t.func, ast.Name) and t.func.id == "isinstance" \
-                    and pat.is_name(t.args[0], name) and isinstance(t.args[1], ast.Name) and t.args[1].id == "SimpleShape":
-                return True
+        if isinstance(st, ast.Assert) and _implies_simple(st.test, name, True):
+            return True
     return False
 
 
